@@ -42,6 +42,7 @@ from harness import kit
 SKETCHED = ("S_ADA", "ADA_FD", "FD_SON", "RFD_SON")
 ALGOS = ("OGD", "ADA") + SKETCHED
 ALPHA_FACTOR = {"S_ADA": 1.0, "RFD_SON": 0.5, "FD_SON": 0.0, "ADA_FD": 0.0}
+GUARD_MAX = 1e100   # inputs are <= ~1e4, delta >= 1e-3 or 0: no legitimate state entry comes near this magnitude
 KAPPA_MAX = 1e7      # w is compared only when B2/alpha is below this (beyond it the closed form is numerically ill-posed)
 
 
@@ -224,9 +225,16 @@ def run_impl(task):
             for g in gs:
                 state = update(state, jnp.array(0.0, jnp.float64), jnp.asarray(g.reshape(shape)))
                 states.append(A.as_np(state))
+                # a runaway state is not fed back (LAPACK's SVD may not terminate on non-finite input); the oracle
+                # reports the truncation. NaN in w alone (Ada-FD, delta = 0) does not reach the SVD.
+                bad_keys = [k for k, v in states[-1].items()
+                            if (k != "w" and not np.all(np.isfinite(v))) or np.any(np.abs(np.nan_to_num(v, nan=0.0)) > GUARD_MAX)]
+                if bad_keys:
+                    obs["truncated"] = {"step": len(states) - 1, "keys": bad_keys}
+                    break
             obs["states"] = [{k: np.array(v, dtype=np.float64) for k, v in s.items()} for s in states]
             obs["dtypes"] = sorted({str(v.dtype) for s in states for v in s.values()})
-            if case.get("train"):
+            if case.get("train") and "truncated" not in obs:
                 T = gs.shape[0]
                 x = jnp.asarray(gs)
                 y = jnp.zeros((T,), jnp.float64)
@@ -639,7 +647,7 @@ def execute(ctx, cases, stats):
             slots.append((start, len(reqs)))
         else:
             start = len(reqs)
-            reqs += requests_simple(c)
+            reqs += requests_simple(dict(c, gs=c["gs"][:len(o["states"]) - 1]))
             slots.append((start, len(reqs)))
     rep1 = ctx.driver(reqs) if reqs else []
     # round 2
@@ -668,6 +676,13 @@ def execute(ctx, cases, stats):
             ctx.violation(f"{c['algo']} shape={c['shape']} sketch={c['k']}: implementation raised {o.get('exception')}", {"case": c, "trace": o.get("trace")})
             continue
         states = o["states"]
+        if "truncated" in o:
+            tr = o["truncated"]
+            ctx.violation(f"{c['algo']} shape={c['shape']} sketch={c['k']} delta={kit.hex_f64(c['delta'])} lr={kit.hex_f64(c['lr'])} "
+                          f"[{c['profile']}]: state entries {tr['keys']} non-finite or above 1e100 after step {tr['step']} "
+                          f"(history of {len(c['gs'])} bounded gradients); history not continued", {"case": c})
+            c = dict(c, gs=c["gs"][:len(states) - 1])
+            cases[i] = c
         if o["dtypes"] != ["float64"]:
             ctx.violation(f"{c['algo']}: state dtypes {o['dtypes']} under jax_enable_x64 (float64 expected)", {"case": c})
         key = (c["algo"], tuple(c["shape"]), c["k"], c["delta"], c["lr"], hashlib.sha1(json.dumps(c["gs"]).encode()).hexdigest()[:16])
